@@ -1,5 +1,6 @@
 import VelaVerif.Model.NpuOp
 import VelaVerif.Spec.FloatExact
+import VelaVerif.Spec.TensorBounds
 /-!
 # What an `NpuOperation` must say about the scheduled operation it was built from (specification side)
 
@@ -87,10 +88,24 @@ def broadcastMsgs (ifm ifm2 : Shape3) : Msgs :=
   let one (nm : String) (a b : Int) : Msgs := if b = a ∨ b = 1 then [] else [s!"broadcast.{nm}:ifm={a}:ifm2={b}"]
   one "height" ifm.height ifm2.height ++ one "width" ifm.width ifm2.width ++ one "depth" ifm.depth ifm2.depth
 
+/-- ADD / SUB with differing input scales rescale one operand only (`IFM_PRECISION[9:8]`: 1 = operand A, 2 = operand B, in
+    hardware order: A is IFM2 when the reverse bit is set).  It must be the one whose scale is the smaller: the positive
+    scales compare like their bit patterns. -/
+def opToScaleMsgs (op : BlockOp) (ifmScale ifm2Scale : Option Nat) : Msgs :=
+  if op.oracle.opToScale = 0 then [] else
+  match ifmScale, ifm2Scale with
+  | some s1, some s2 =>
+    let (sa, sb) := if op.reversedOperands then (s2, s1) else (s1, s2)
+    if sa < sb ∧ op.oracle.opToScale ≠ 1 then [s!"opToScale:exp=1:got={op.oracle.opToScale}"]
+    else if sb < sa ∧ op.oracle.opToScale ≠ 2 then [s!"opToScale:exp=2:got={op.oracle.opToScale}"]
+    else []
+  | _, _ => ["opToScale:operand-without-scale"]
+
 /-- `a`, `b`: first and second operand of the source operator; `op`: the real operation; `ifmScale`, `ifm2Scale`:
     the scales of its two input quantisations; `scalarBits`: its `ifm2_scalar` -/
 def rolesMsgs (a b : Operand) (op : BlockOp) (ifmScale ifm2Scale scalarBits : Option Nat) : Msgs :=
   let (x, y) := if op.reversedOperands then (b, a) else (a, b)
+  opToScaleMsgs op ifmScale ifm2Scale ++
   fmRoleMsgs "ifm" x op.ifm ifmScale ++
   match op.ifm2 with
   | none => ["ifm2:missing"]
@@ -241,6 +256,30 @@ def clampMsgs (fmin fmax : Option Nat) (scale : Option Nat) (zp : Int) (dt : DTy
   | none => ["clamp:expected-range-not-computable"]
   | some (emin, emax) =>
     chk "activation.min" emin (max (qmin.getD lo) lo) ++ chk "activation.max" emax (min (qmax.getD hi) hi)
+
+/-! ## every feature map stays inside the allocation of the tensor it was created from (`Spec/TensorBounds.lean`) -/
+
+def defaultStrides (fm : FM) : Int × Int × Int :=
+  match fm.strides with
+  | some s => (s.height, s.width, s.depth)
+  | none =>
+    let es := fm.dtype.bytes
+    if fm.nhcwb16 then (es * fm.shape.width * roundUp16 fm.shape.depth, 16 * es, 16 * es * fm.shape.width)
+    else (fm.shape.width * fm.shape.depth * es, fm.shape.depth * es, es)
+
+def footprintMsgs (nm : String) (fm : FM) (addr size : Int) : Msgs :=
+  let (sy, sx, sc) := defaultStrides fm
+  let ints := fm.addresses ++ [fm.height0, fm.height1, fm.width0, sx, sy, sc, fm.shape.height, fm.shape.width, fm.shape.depth, addr, size]
+  if ints.any (· < 0) then [nm ++ ":negative-field"] else
+  let d : Decode.FM := { region := fm.region.toNat, base := fm.addresses.map Int.toNat, height0 := fm.height0.toNat,
+                         height1 := fm.height1.toNat, width0 := fm.width0.toNat, strideX := sx.toNat, strideY := sy.toNat,
+                         strideC := sc.toNat, height := fm.shape.height.toNat, width := fm.shape.width.toNat,
+                         depth := fm.shape.depth.toNat, elemBytes := fm.dtype.bytes.toNat, signed := fm.dtype.signed,
+                         nhcwb16 := fm.nhcwb16, zeroPoint := 0 }
+  if TensorBounds.footprintInsideAllocation d addr.toNat size.toNat then [] else
+  match TensorBounds.firstOutside (Footprint.fmPieces d 0 0 0) addr.toNat size.toNat with
+  | some p => [s!"{nm}:bytes[{p.addr},{p.addr + p.len}):outside:[{addr},{addr + size})"]
+  | none => [nm ++ ":outside"]
 
 def verdict (ms : Msgs) : String := s!"{ms.length} " ++ "~".intercalate (ms.take 6)
 
